@@ -131,7 +131,9 @@ Proof.
     rewrite <- B_pow, Z.mod_small by (rewrite HB; nia).
     rewrite H4. apply expect_refl.
   - (* cmp *)
-    intros (Hl & Hr). rewrite limbs_cmp_gen by auto. apply expect_refl.
+    intros (Hl & Hr). rewrite limbs_cmp_gen by auto.
+    destruct (eval (firstn (Nat.min (length l) (length r)) l)
+              ?= eval (firstn (Nat.min (length l) (length r)) r)); apply expect_refl.
   - (* adc *)
     intros (Hx & Hy & Hc). pose proof (adc_spec x y cy Hx Hy Hc) as S.
     destruct (Word.adc x y cy) as [lo' hi']. destruct S as (H1 & H2 & H3).
